@@ -108,6 +108,10 @@ impl IoCtl {
         s.read_buf.extend(HANDSHAKE.iter());
         s.hs_pushed = true;
     }
+    fn push_notification(&self) {
+        let mut s = self.0.lock().unwrap();
+        s.read_buf.extend([3u8, 7, 7, 7]);
+    }
     fn fail(&self) {
         let mut s = self.0.lock().unwrap();
         s.read_eof = true;
@@ -282,14 +286,18 @@ impl Run {
                 let _ = self.handle.close_substream(peer).now_or_never();
             }
             12 => self.handle.verif_force_close(peer),
-            13 | 16 => {
+            13 | 16 | 17 | 18 => {
                 if let Some((a, b)) = self.task_ios[p].last().cloned() {
                     if a.live() || b.live() {
-                        if arg != 0 || kind == 16 {
+                        if kind == 17 || kind == 18 {
+                            // the remote sends a notification on the open stream
+                            a.push_notification();
+                        }
+                        if (arg != 0 && kind != 17) || kind == 16 {
                             a.0.lock().unwrap().shutdown_gated = true;
                             b.0.lock().unwrap().shutdown_gated = true;
                         }
-                        if kind == 13 {
+                        if kind == 13 || kind == 18 {
                             a.0.lock().unwrap().read_eof = true;
                         }
                     }
@@ -359,7 +367,7 @@ fn run_case(c: &[u64]) -> Option<Vec<u64>> {
         return None;
     }
     for i in 0..nops {
-        if c[4 + 3 * i] > 16 || c[5 + 3 * i] >= NP as u64 {
+        if c[4 + 3 * i] > 18 || c[5 + 3 * i] >= NP as u64 {
             return None;
         }
     }
@@ -413,10 +421,11 @@ fn random_op(rng: &mut Rng, slow: bool) -> (u64, u64) {
         92 => 12,
         93..=95 => 13,
         96 => if slow { 16 } else { 13 },
-        97..=98 => 14,
+        97 => 14,
+        98 => if rng.chance(60) { 17 } else { 18 },
         _ => 15,
     };
-    let arg = if kind == 13 { (slow && rng.chance(50)) as u64 } else { arg };
+    let arg = if kind == 13 || kind == 18 { (slow && rng.chance(50)) as u64 } else { arg };
     (kind, arg)
 }
 
@@ -458,7 +467,17 @@ fn peer_script(rng: &mut Rng, auto_accept: bool, slow: bool) -> Vec<(u64, u64)> 
                 s.extend([(6, 1), (7, 1)]);
             }
         }
+        for _ in 0..rng.below(3) {
+            s.push((17, 0));
+        }
         // how the stream ends
+        if rng.chance(25) {
+            s.push((18, (slow && rng.chance(40)) as u64));
+            if rng.chance(50) {
+                s.push((14, 0));
+            }
+            continue;
+        }
         match rng.below(6) {
             0 => s.push((11, 0)),
             1 => s.push((13, 0)),
